@@ -409,6 +409,10 @@ def run(chk, repo, tier):
     rule_R5(chk, repo)
     rule_R6(chk, repo)
     rule_R7(chk, repo)
+    from . import support
+    support.storage_type_rules(chk, repo, 'C05.R8', {'opgraph', 'opchain', 'mpo'},
+                               only={q for q in repo.funcs if not q.startswith('mpo.') or q == 'mpo.MPO.from_opgraph'})
+    support.graph_table_rules(chk, repo, 'C05.R9', ('OpGraph',))
     chk.undecided += ['equality of the compiled graph/MPO with the sum of padded chains as operators '
                       '(needs the invariant of the bipartite repartition, not a code shape)',
                       'that accumulation in the gamma dictionary is complete (decided: the accumulate / initialise idiom)']
